@@ -329,7 +329,7 @@ def _refine_hits_cubic(
         s_star = s_lin
 
         # Estimate g-derivatives (central where possible)
-        if dt_seg > 0.0:
+        if dt_seg != 0.0:
             if (k - 1) >= 0:
                 d0 = (g_all[k + 1] - g_all[k - 1]) / (times[k + 1] - times[k - 1])
             else:
@@ -356,7 +356,7 @@ def _refine_hits_cubic(
         th = (1.0 - s_star) * times[k] + s_star * times[k + 1]
 
         # State interpolation: cubic Hermite when neighbor points exist
-        if dt_seg > 0.0 and (k - 1) >= 0 and (k + 2) < N:
+        if dt_seg != 0.0 and (k - 1) >= 0 and (k + 2) < N:
             dxdt0 = (states[k + 1] - states[k - 1]) / (times[k + 1] - times[k - 1])
             dxdt1 = (states[k + 2] - states[k]) / (times[k + 2] - times[k])
             s = s_star
@@ -539,7 +539,7 @@ def _detect_with_segment_refine(
         gk1 = float(g_all[k + 1])
 
         # Optional cubic slopes for g
-        if use_cubic and dt > 0.0:
+        if use_cubic and dt != 0.0:
             if (k - 1) >= 0:
                 d0 = (g_all[k + 1] - g_all[k - 1]) / (times[k + 1] - times[k - 1])
             else:
@@ -581,7 +581,7 @@ def _detect_with_segment_refine(
                 continue
 
             # Evaluate g at s_lo and s_hi
-            if use_cubic and dt > 0.0:
+            if use_cubic and dt != 0.0:
                 g_lo = _hermite_scalar(s_lo, gk, gk1, d0, d1, dt)
                 g_hi = _hermite_scalar(s_hi, gk, gk1, d0, d1, dt)
             else:
@@ -607,7 +607,7 @@ def _detect_with_segment_refine(
                 s_star = s_lo + alpha_local * (s_hi - s_lo)
 
             # Optional Newton refinement on the full base segment (cubic g)
-            if use_cubic and dt > 0.0:
+            if use_cubic and dt != 0.0:
                 for _ in range(newton_max_iter):
                     f = _hermite_scalar(s_star, gk, gk1, d0, d1, dt)
                     df = _hermite_der(s_star, gk, gk1, d0, d1, dt)
@@ -625,7 +625,7 @@ def _detect_with_segment_refine(
             th = (1.0 - s_star) * t0 + s_star * t1
 
             # Hit state on the base segment at s_star (cubic state if neighbors available)
-            if use_cubic and dt > 0.0 and (k - 1) >= 0 and (k + 2) < N:
+            if use_cubic and dt != 0.0 and (k - 1) >= 0 and (k + 2) < N:
                 dxdt0 = (states[k + 1] - states[k - 1]) / (times[k + 1] - times[k - 1])
                 dxdt1 = (states[k + 2] - states[k]) / (times[k + 2] - times[k])
                 s = s_star
